@@ -173,7 +173,20 @@ for _NV in self.combined_variables:
             _E2.rename_elementary(_A2, prefix=MEV_PREFIX, suffix=f'_{_J}')
             database.define_variable(f'{MEV_PREFIX}{_NV.name}_{_J}', _E2)
 """.replace('_E2', '_E').replace('_A2', '_A').replace('_J', '_I'))
-    ctx.add('C19.R2', 'define_new_variables', ok, dv, 'combined variable j of alternative i reads the attributes with suffix _i (MEV prefix for the second sample) and is stored under the same scheme' if ok else 'naming of the combined variables changed', 'define')
+    wrongp = None
+    if not ok:
+        for lp_ in [x for x in walk_no_nested(dv.node) if isinstance(x, ast.For) and isinstance(x.iter, ast.Call) and call_name(x.iter) == 'range' and len(x.iter.args) == 1]:
+            which = unparse(x_) if (x_ := lp_.iter.args[0]) is not None else ''
+            second = which == 'self.second_sample_size'
+            if which not in ('self.second_sample_size', 'self.total_sample_size'):
+                continue
+            for c_ in [y for y in ast.walk(lp_) if isinstance(y, ast.Call) and call_name(y) == 'rename_elementary']:
+                pre = named_args(c_).get('prefix')
+                if second and pre != 'MEV_PREFIX':
+                    wrongp = f'for the second sample the attributes are renamed with prefix={pre}: the combined variable {"{MEV_PREFIX}"}<name>_<i> then reads the attributes <attr>_<i> of the alternative at position i of the MAIN sample'
+                elif not second and pre is not None and pre != "''":
+                    wrongp = f'for the main sample the attributes are renamed with prefix={pre}: the combined variable reads the attributes of the second sample'
+    ctx.add('C19.R2', 'define_new_variables', ok if (ok or wrongp) else None, dv, wrongp if wrongp else 'combined variable j of alternative i reads the attributes with suffix _i (MEV prefix for the second sample) and is stored under the same scheme' if ok else 'naming of the combined variables changed', 'define', positive=bool(wrongp))
     M = prog.cls(GM, 'GenerateModel')
     init = M.methods['__init__']
     b = find(init.node, """
